@@ -39,7 +39,8 @@ def run(ck):
             ck.extra["race_build"] = True
         ck.coqchk(["GM.Props.C19"])
     ck.evaluations = (ck.stats.get("model_cases", 0) + ck.stats.get("after_close_checks", 0) + ck.stats.get("close_flushes_checks", 0) +
-                      ck.stats.get("close_closes_carrier_checks", 0) + ck.stats.get("intact_checks", 0) + ck.stats.get("loopback_runs", 0))
+                      ck.stats.get("close_closes_carrier_checks", 0) + ck.stats.get("error_closes_carrier_checks", 0) +
+                      ck.stats.get("intact_checks", 0) + ck.stats.get("loopback_runs", 0))
     ck.distinct = ck.stats.get("model_distinct", 0)
     ck.rule = ("scripts: sends/receives, then the event that kills the connection (Close, carrier write failure, unencodable packet, receive "
                "error), then buffered/flushed sends, timer waits, receives, second Close — compared step by step with cn_step; concurrent: "
